@@ -14,7 +14,7 @@ LEVEL_TEXT = ("Held on every generated (graph, start, message, mode, table, chec
               "by construction and have floors below which the run is inconclusive.")
 LEVEL_NOTE = ("Trusts the harness's walk oracle and graph pruning routine; graphs of order <= 4 (quick) / 6 (thorough), messages <= 400 (quick) / 2048 (thorough) bits; "
               "numpy bool messages excluded as unsupported input.")
-PLAN = {"quick": dict(shards=16, budget=100), "thorough": dict(shards=32, budget=420)}
+PLAN = {"quick": dict(shards=16, budget=100), "thorough": dict(shards=16, budget=420)}
 RULE = ("Client-side history of two events per case: s = encode(m, G, v, mode, table, vt) then decode(s, len(m), G, v, "
         "mode, table, check) on the real functions, under the JUMP clock, with read-only numpy arguments and argument/"
         "global digests. Graphs: random arc subsets of the order-k de Bruijn graph pruned by an independent fixed-point "
